@@ -9,6 +9,11 @@ R14.3 the input pipeline preserves cardinality
 R14.4 failures become records (try/except around main, NotCompleted short-circuits,
       None converted on entry and exit)
 R14.5 writers route by kind with the same identifier
+
+Added later in build rounds 2-3 (see DESIGN.md section 3, round-2/3 table):
+R14.6 a function-app is stateless across records: the constructor arguments it stored (self._args, self._kwargs) reach the user's function only as deep ...
+R14.7 apply_to never raises because one record fails: the call of the writer's main inside the loop over completed results sits in a try whose handler ...
+R14.8 a re-run records a repeated failure instead of raising: the writers' overwrite check (`unique_id in self` in append mode) answers for the one ...
 """
 
 from __future__ import annotations
